@@ -188,7 +188,7 @@ func (p *parser) infix(node Node, first, prec int) (Node, error) {
 					return nil, err
 				}
 
-				node = &PipeNode{
+				node = &SubExpressionNode{
 					Left:  node,
 					Right: right,
 				}
